@@ -7,6 +7,7 @@ package controlcommands
 import (
 	"errors"
 	"sync"
+	"time"
 
 	"github.com/AliceO2Group/Control/common/utils/uid"
 	vrt "github.com/AliceO2Group/Control/zz_vrt"
@@ -39,6 +40,7 @@ const c12Opts = "stub=github.com/AliceO2Group/Control/common/utils.TimeTrack"
 // task u, with or without an error inside; the send may fail; the response timer may fire at any moment.
 // The call must return its own reply (one addressed to A from t, delivered before the timer) or an error,
 // never anything else, and must not leave its entry behind.
+//
 //verif:entry HarnessRunCommandVsAdversary unwind=8 timers=eager preempt=2 reach=own,timeout,sendfail stub=github.com/AliceO2Group/Control/common/utils.TimeTrack
 //verif:thorough HarnessRunCommandVsAdversary preempt=3 paths=2000000
 func HarnessRunCommandVsAdversary() {
@@ -114,6 +116,7 @@ func HarnessRunCommandVsAdversary() {
 }
 
 // ---- two commands in flight at the same time ----------------------------------------------------------
+//
 //verif:entry HarnessTwoCommandsInFlight unwind=8 timers=lazy preempt=2 reach=both stub=github.com/AliceO2Group/Control/common/utils.TimeTrack
 //verif:thorough HarnessTwoCommandsInFlight preempt=4
 func HarnessTwoCommandsInFlight() {
@@ -177,9 +180,13 @@ func HarnessCommitPerTarget() {
 		outcome[tg] = vrt.IntRange("outcome", c12OK, c12Silent)
 	}
 	cmd := c12Cmd(targets...)
+	if vrt.Bool("own.response.timeout") { // e.g. CONFIGURE, which is given 120 s instead of the default 90 s
+		cmd.ResponseTimeout = 120 * time.Second
+	}
 	var s *Servent
 	s = NewServent(func(command MesosCommand, receiver MesosCommandTarget) error {
 		vrt.Assert(command.GetId() == cmd.GetId(), "single-target-copy-keeps-the-command-id")
+		vrt.Assert(command.GetResponseTimeout() == cmd.GetResponseTimeout(), "single-target-copy-keeps-the-response-timeout")
 		switch outcome[receiver] {
 		case c12SendFail:
 			return errors.New("send failed")
